@@ -21,6 +21,10 @@ def main(argv):
             from sim import selftest
 
             return selftest.mutants(argv[1:])
+        if argv[0] == "selftest-benign":
+            from sim import mutants
+
+            return mutants.benign(argv[1:])
         if argv[0] == "selftest-seeded":
             from sim import mutants
 
